@@ -84,7 +84,7 @@ class Array:
             self.data = BitArray(initializer * self._dtype.bitlength)
         elif isinstance(initializer, (Bits, bytes, bytearray, memoryview)):
             self.data += initializer
-        elif isinstance(initializer, io.BufferedReader):
+        elif isinstance(initializer, (io.BufferedReader, io.BufferedRandom)):
             self.fromfile(initializer)
         elif initializer is not None:
             self.extend(initializer)
